@@ -3,6 +3,7 @@ module verif/harness
 go 1.15
 
 require (
+	github.com/hslam/netpoll v0.0.4-0.20230514092318-c286d2b379aa
 	github.com/hslam/rpc v0.0.0
 	github.com/hslam/socket v0.0.4-0.20230517140040-6048f4a0c39b
 )
